@@ -36,6 +36,7 @@ type Obligation struct {
 	Clause     *Clause
 	Pos        string
 	ShortLimit bool
+	errText    string
 }
 
 // VC holds the verification conditions of one function.
@@ -81,6 +82,7 @@ type VC struct {
 	retSeen          map[string]int
 	lemmaPkg         *types.Package
 	preparing        bool
+	contractErr      bool
 	deadCache        map[string]map[int]bool
 	deadMu           sync.Mutex
 	obligeState      *State
